@@ -2,6 +2,8 @@ package ir
 
 import (
 	"fmt"
+	"go/constant"
+	"go/types"
 
 	"golang.org/x/tools/go/ssa"
 )
@@ -173,8 +175,9 @@ type fstate struct {
 // this correlation the expanded graph would contain the path "helper fails, caller carries on".
 type ffact struct {
 	call ssa.CallInstruction
-	idx  int  // result index the fact is about
-	val  bool // error: true = non-nil; bool: the constant
+	idx  int    // result index the fact is about
+	val  bool   // error: true = non-nil; bool: the constant
+	cval string // a returned constant of an integer (enumeration) type: its exact value; "" otherwise
 	next *ffact
 	sig  string
 }
@@ -195,7 +198,20 @@ func (f *ffact) signature() string {
 	return f.sig
 }
 
+func (f *ffact) lookupConst(call ssa.CallInstruction, idx int) (string, bool) {
+	for x := f; x != nil; x = x.next {
+		if x.call == call && x.idx == idx && x.cval != "" {
+			return x.cval, true
+		}
+	}
+	return "", false
+}
+
 func withFact(f *ffact, call ssa.CallInstruction, idx int, val bool) *ffact {
+	return withFactC(f, call, idx, val, "")
+}
+
+func withFactC(f *ffact, call ssa.CallInstruction, idx int, val bool, cval string) *ffact {
 	// drop an older fact about the same call (re-executed in a loop)
 	var keep []*ffact
 	for x := f; x != nil; x = x.next {
@@ -205,9 +221,9 @@ func withFact(f *ffact, call ssa.CallInstruction, idx int, val bool) *ffact {
 	}
 	var out *ffact
 	for i := len(keep) - 1; i >= 0; i-- {
-		out = &ffact{call: keep[i].call, idx: keep[i].idx, val: keep[i].val, next: out}
+		out = &ffact{call: keep[i].call, idx: keep[i].idx, val: keep[i].val, cval: keep[i].cval, next: out}
 	}
-	out = &ffact{call: call, idx: idx, val: val, next: out}
+	out = &ffact{call: call, idx: idx, val: val, cval: cval, next: out}
 	sig := ""
 	for x := out; x != nil; x = x.next {
 		v := "0"
@@ -218,7 +234,7 @@ func withFact(f *ffact, call ssa.CallInstruction, idx int, val bool) *ffact {
 			sig += "^;"
 			continue
 		}
-		sig += fmt.Sprint(int(x.call.Pos())) + ":" + string(rune('0'+x.idx)) + v + ";"
+		sig += fmt.Sprint(int(x.call.Pos())) + ":" + string(rune('0'+x.idx)) + v + x.cval + ";"
 	}
 	for x := out; x != nil; x = x.next {
 		x.sig = sig
@@ -236,7 +252,88 @@ type fkey struct {
 }
 
 // feasibleSucc: given the facts of this activation, which successors of the If ending block b can be taken?
-func feasibleSucc(b *ssa.BasicBlock, facts *ffact) (onlyTrue, onlyFalse bool) {
+// factValue follows v through the parameters of the expanded contexts to the call (or tuple extract) whose
+// return the facts may know about.
+func factValue(ctx *FCtx, v ssa.Value) (ssa.CallInstruction, int, bool) {
+	for depth := 0; depth < 8; depth++ {
+		switch x := v.(type) {
+		case *ssa.Call:
+			return x, 0, true
+		case *ssa.Extract:
+			if c, ok := x.Tuple.(*ssa.Call); ok {
+				return c, x.Index, true
+			}
+			return nil, 0, false
+		case *ssa.ChangeType:
+			v = x.X
+			continue
+		case *ssa.Field:
+			// a verdict carried in a bundle struct: the field of a struct-valued parameter, as set where the struct was built
+			if src := bundleField(x.X, x.Field); src != nil {
+				v = src
+				continue
+			}
+			if p := spilledParam(x.X); p != nil {
+				if ctx2, arg := argOf(ctx, p); arg != nil {
+					if src := bundleField(arg, x.Field); src != nil {
+						v, ctx = src, ctx2
+						continue
+					}
+				}
+			}
+			return nil, 0, false
+		case *ssa.UnOp:
+			fa, ok := x.X.(*ssa.FieldAddr)
+			if !ok {
+				return nil, 0, false
+			}
+			if al, ok := fa.X.(*ssa.Alloc); ok {
+				// a local struct: the single store to this field
+				if src := singleFieldStore(al, fa.Field); src != nil {
+					v = src
+					continue
+				}
+				// ... or a parameter spilled into a local
+				if p := spilledParam(al); p != nil {
+					if ctx2, arg := argOf(ctx, p); arg != nil {
+						if src := bundleField(arg, fa.Field); src != nil {
+							v, ctx = src, ctx2
+							continue
+						}
+					}
+				}
+			}
+			return nil, 0, false
+		case *ssa.Parameter:
+			if ctx == nil || ctx.Call == nil || x.Parent() != ctx.Fn {
+				return nil, 0, false
+			}
+			cc := ctx.Call.Common()
+			var args []ssa.Value
+			if cc.IsInvoke() {
+				args = append(args, cc.Value)
+			}
+			args = append(args, cc.Args...)
+			ps := ctx.Fn.Params
+			shift := len(ps) - len(args)
+			idx := -1
+			for i, p := range ps {
+				if p == x {
+					idx = i - shift
+				}
+			}
+			if shift < 0 || idx < 0 || idx >= len(args) {
+				return nil, 0, false
+			}
+			v, ctx = args[idx], ctx.Up
+			continue
+		}
+		return nil, 0, false
+	}
+	return nil, 0, false
+}
+
+func feasibleSucc(ctx *FCtx, b *ssa.BasicBlock, facts *ffact) (onlyTrue, onlyFalse bool) {
 	if facts == nil || len(b.Instrs) == 0 {
 		return false, false
 	}
@@ -266,6 +363,18 @@ func feasibleSucc(b *ssa.BasicBlock, facts *ffact) (onlyTrue, onlyFalse bool) {
 		if op != "==" && op != "!=" {
 			return false, false
 		}
+		// an enumeration value returned as a constant by an expanded call (possibly handed on as an argument), compared with a constant
+		for _, pr := range [][2]ssa.Value{{x.X, x.Y}, {x.Y, x.X}} {
+			cst, ok := pr[1].(*ssa.Const)
+			if !ok || cst.Value == nil || cst.Value.Kind() != constant.Int {
+				continue
+			}
+			if call, idx, ok := factValue(ctx, pr[0]); ok {
+				if cv, known := facts.lookupConst(call, idx); known {
+					return decide((op == "==") == (cv == cst.Value.ExactString()))
+				}
+			}
+		}
 		var other ssa.Value
 		if isNilConst(x.Y) {
 			other = x.X
@@ -289,6 +398,13 @@ func feasibleSucc(b *ssa.BasicBlock, facts *ffact) (onlyTrue, onlyFalse bool) {
 	case *ssa.Extract:
 		if c, ok := x.Tuple.(*ssa.Call); ok {
 			if v, ok := facts.lookup(c, x.Index); ok {
+				return decide(v)
+			}
+		}
+	case *ssa.Parameter:
+		// a verdict handed to a helper as a bool argument
+		if call, idx, ok := factValue(ctx, x); ok && x.Type().String() == "bool" {
+			if v, ok := facts.lookup(call, idx); ok {
 				return decide(v)
 			}
 		}
@@ -365,6 +481,13 @@ func (w *World) FlatWalk(root *FCtx, from *FPos, cut *FlatCut, visit func(FPos) 
 					for ri, rv := range x.Results {
 						if cst, ok := rv.(*ssa.Const); ok && cst.Value != nil && rv.Type().String() == "bool" {
 							callerFacts = withFact(callerFacts, s.ctx.Call, ri, constBool(cst))
+						} else if ok && cst.Value != nil && cst.Value.Kind() == constant.Int {
+							if bt, isBasic := rv.Type().Underlying().(*types.Basic); isBasic && bt.Info()&types.IsInteger != 0 {
+								if _, named := rv.Type().(*types.Named); named {
+									// a named integer type: an enumeration (outcome / verdict / status) — worth remembering exactly
+									callerFacts = withFactC(callerFacts, s.ctx.Call, ri, false, cst.Value.ExactString())
+								}
+							}
 						}
 					}
 					q = append(q, fstate{ctx: s.ctx.Up, b: cb, i: InstrIndex(s.ctx.Call) + 1, facts: callerFacts})
@@ -381,7 +504,7 @@ func (w *World) FlatWalk(root *FCtx, from *FPos, cut *FlatCut, visit func(FPos) 
 			continue
 		}
 		edges := w.flatEdges(cut, s.ctx)
-		onlyTrue, onlyFalse := feasibleSucc(s.b, s.facts)
+		onlyTrue, onlyFalse := feasibleSucc(s.ctx, s.b, s.facts)
 		for si, succ := range s.b.Succs {
 			if edges != nil && edges[[2]int{s.b.Index, si}] {
 				continue
@@ -521,4 +644,96 @@ func (w *World) FlatPrecedesM(fn *ssa.Function, isA, isB func(ssa.Instruction) b
 func (w *World) ArgSubst(call ssa.CallInstruction, g *ssa.Function, e *Expr) *Expr {
 	en := w.callEnv(g, call, nil)
 	return Subst(e, en.params)
+}
+
+// argOf: the argument handed in for parameter p at the call that created ctx, and the caller's context.
+func argOf(ctx *FCtx, p *ssa.Parameter) (*FCtx, ssa.Value) {
+	if ctx == nil || ctx.Call == nil || p.Parent() != ctx.Fn {
+		return nil, nil
+	}
+	cc := ctx.Call.Common()
+	var args []ssa.Value
+	if cc.IsInvoke() {
+		args = append(args, cc.Value)
+	}
+	args = append(args, cc.Args...)
+	ps := ctx.Fn.Params
+	shift := len(ps) - len(args)
+	for i, q := range ps {
+		if q == p && shift >= 0 && i-shift >= 0 && i-shift < len(args) {
+			return ctx.Up, args[i-shift]
+		}
+	}
+	return nil, nil
+}
+
+// spilledParam: v is a parameter, or (a load of) the local a parameter was copied into and never reassigned.
+func spilledParam(v ssa.Value) *ssa.Parameter {
+	if u, ok := v.(*ssa.UnOp); ok {
+		v = u.X
+	}
+	if p, ok := v.(*ssa.Parameter); ok {
+		return p
+	}
+	al, ok := v.(*ssa.Alloc)
+	if !ok || al.Referrers() == nil {
+		return nil
+	}
+	var p *ssa.Parameter
+	n := 0
+	for _, r := range *al.Referrers() {
+		if st, ok := r.(*ssa.Store); ok && st.Addr == ssa.Value(al) {
+			n++
+			p, _ = st.Val.(*ssa.Parameter)
+		}
+	}
+	if n == 1 {
+		return p
+	}
+	return nil
+}
+
+// bundleField: v is (a load of) a local struct built field by field; returns what was stored into field i (when stored once).
+func bundleField(v ssa.Value, i int) ssa.Value {
+	if u, ok := v.(*ssa.UnOp); ok {
+		v = u.X
+	}
+	al, ok := v.(*ssa.Alloc)
+	if !ok {
+		return nil
+	}
+	return singleFieldStore(al, i)
+}
+
+func singleFieldStore(al *ssa.Alloc, i int) ssa.Value {
+	if al.Referrers() == nil {
+		return nil
+	}
+	var val ssa.Value
+	n := 0
+	for _, r := range *al.Referrers() {
+		switch x := r.(type) {
+		case *ssa.FieldAddr:
+			if x.Field != i || x.Referrers() == nil {
+				continue
+			}
+			for _, rr := range *x.Referrers() {
+				if st, ok := rr.(*ssa.Store); ok && st.Addr == ssa.Value(x) {
+					n++
+					val = st.Val
+				}
+			}
+		case *ssa.Store:
+			if x.Addr == ssa.Value(al) {
+				// the whole struct assigned: only a zero value keeps the field's single definition meaningful
+				if c, ok := x.Val.(*ssa.Const); !ok || c.Value != nil {
+					return nil
+				}
+			}
+		}
+	}
+	if n == 1 {
+		return val
+	}
+	return nil
 }
